@@ -148,15 +148,19 @@ func c13Ref(model map[string]c13Val, q c13Query) []string {
 func c13IQ(qs *badgerstore.QueryStore, q url.Values) (*badgerstore.IndexQuery, error) {
 	off, _ := strconv.Atoi(q.Get("offset"))
 	lim, _ := strconv.Atoi(q.Get("limit"))
-	return &badgerstore.IndexQuery{
-		Index:      qs.Index(q.Get("idx")),
-		KeyPrefix:  []byte(q.Get("prefix")),
-		FilterKeys: c13Filter(q.Get("filter")),
-		Offset:     off,
-		Limit:      lim,
-		Reverse:    q.Get("reverse") == "true",
-	}, nil
+	// one IndexQuery value is reused for every query (its exported fields are set anew each time): a query
+	// must depend on nothing a previous query left behind in it
+	iq := c13SharedIQ
+	iq.Index = qs.Index(q.Get("idx"))
+	iq.KeyPrefix = []byte(q.Get("prefix"))
+	iq.FilterKeys = c13Filter(q.Get("filter"))
+	iq.Offset = off
+	iq.Limit = lim
+	iq.Reverse = q.Get("reverse") == "true"
+	return iq, nil
 }
+
+var c13SharedIQ = &badgerstore.IndexQuery{}
 
 func c13BasicQueries() []c13Query {
 	var out []c13Query
